@@ -785,14 +785,20 @@ func runC27(in, outPath, workdir string, seed int64, thorough bool) {
 	if len(x.L.es) != len(x.F.es) {
 		fatalf("foreign log has a different length")
 	}
-	// both logs must verify before anything is tampered with
+	// both logs must verify before anything is tampered with: reported as "baseline" lines
 	x.whole, x.off, x.snap = map[string][]byte{}, map[string][]int{}, map[string][]vsnap{}
-	for _, vl := range []*validLog{x.L, x.F} {
+	var baseline []event
+	baselineOK := true
+	for li, vl := range []*validLog{x.L, x.F} {
 		for _, s := range []string{"bin", "json"} {
 			t := newTlog(vl, s)
 			data := t.bytes(serializerOf(s))
-			if v := verifyStream(data, nil, -1, vsnap{}, vsnap{}, serializerOf(s), k); !v.ok {
-				fatalf("untampered %s log does not verify: %s at %d", s, v.reason, v.failIdx)
+			v := verifyStream(data, nil, -1, vsnap{}, vsnap{}, serializerOf(s), k)
+			baseline = append(baseline, event{"kind": "baseline", "ser": s, "log": []string{"L", "F"}[li], "ok": v.ok,
+				"reason": v.reason, "fail_idx": v.failIdx, "entries": len(vl.es)})
+			if !v.ok {
+				baselineOK = false
+				continue
 			}
 			if vl == x.L {
 				x.whole[s] = data
@@ -839,12 +845,21 @@ func runC27(in, outPath, workdir string, seed int64, thorough bool) {
 		}(wkr)
 	}
 	for i := range cases {
+		if !baselineOK && cases[i].Kind != "rt" {
+			continue // nothing to tamper with: the untampered log is already rejected (see the baseline lines)
+		}
 		next <- i
 	}
 	close(next)
 	wg.Wait()
 	w := newNdWriter(outPath)
+	for _, r := range baseline {
+		w.emit(r)
+	}
 	for _, r := range results {
+		if r == nil {
+			continue
+		}
 		w.emit(r)
 	}
 	w.close()
